@@ -46,6 +46,10 @@ def configs(tier, seed):
         out.append(dict(name="homo nt=%d sizes=%s" % (nt, sizes), h="homo", nt=nt, sizes=list(sizes)))
     out.append(dict(name="scorer nt=3 sizes=(1,2)", h="scorer", nt=3, sizes=[1, 2]))
     out.append(dict(name="scorer nt=4 sizes=(2,1,3)", h="scorer", nt=4, sizes=[2, 1, 3]))
+    # the triple budget exactly C(n,3) (every triple still enumerated once)
+    out.append(dict(name="hetero nt=4 sizes=(2,1) budget = C(4,3)", h="hetero", nt=4, sizes=[2, 1], order="id", budget="exact"))
+    out.append(dict(name="homo nt=4 sizes=(2,1) budget = C(4,3)", h="homo", nt=4, sizes=[2, 1], budget="exact"))
+    out.append(dict(name="scorer nt=4 sizes=(1,2) budget = C(4,3)", h="scorer", nt=4, sizes=[1, 2], budget="exact"))
     # consecutive sub-groups of equal padded shape in which a later plate is smaller than the plate that had its slot before
     out.append(dict(name="scorer nt=3 sizes=(3,2,3,1)", h="scorer", nt=3, sizes=[3, 2, 3, 1]))
     if not q:
@@ -93,13 +97,22 @@ class _FixedRng:
         self.order = order
 
     def choice(self, n, size=None, replace=True, p=None, axis=0, shuffle=True):
-        assert size == n and not replace
+        if replace:
+            # a draw with replacement may return anything; the least helpful legal answer is the same element every time
+            return [int(n) // 2] * int(size)
+        if size != n:
+            raise ValueError("the harness generator serves full enumerations only (size == population)")
         idx = list(range(n))
         if self.order == "rev":
             idx = idx[::-1]
         elif self.order == "rot":
             idx = idx[1:] + idx[:1]
         return idx
+
+
+def _budget(cfg, nt):
+    """the triple budget: far above C(n,3), or - the boundary of the property's quantifier - exactly C(n,3)"""
+    return math.comb(nt, 3) if cfg.get("budget") == "exact" else 10 ** 6
 
 
 def _inputs(ctx, nt, sizes):
@@ -188,14 +201,14 @@ def h_hetero(ctx, cfg):
     V = [np.array(v, dtype=float) for v in vars_]
     triples = _triple_order(gd, nt, order)
     H = gd.dbal_fast_gaussian_scoring_heteroscedastic
-    together = _checked(ctx, np, gd, lambda: H(M, V, D, _FixedRng(order), max_combos=10 ** 6).tolist(),
+    together = _checked(ctx, np, gd, lambda: H(M, V, D, _FixedRng(order), max_combos=_budget(cfg, nt)).tolist(),
                         means, vars_, dist, order, nt)
     ctx.observe("scores", together)
     ctx.prove(len(together) == len(sizes), "one score per plate")
     for p in range(len(sizes)):
         ref = _ref_score(ctx, np, means[p], vars_[p], dist, triples)
         ctx.prove(ctx.eq(together[p], ref), "score = log-sum over triples of the direct estimator")
-        alone = _checked(ctx, np, gd, lambda: H([M[p]], [V[p]], D, _FixedRng(order), max_combos=10 ** 6).tolist(),
+        alone = _checked(ctx, np, gd, lambda: H([M[p]], [V[p]], D, _FixedRng(order), max_combos=_budget(cfg, nt)).tolist(),
                          [means[p]], [vars_[p]], dist, order, nt)
         ctx.prove(ctx.eq(alone[0], together[p]), "score unchanged by the other plates scored alongside (padding)")
         if sizes[p] >= 2:
@@ -204,16 +217,16 @@ def h_hetero(ctx, cfg):
             Vp = np.array([[row[e] for e in permd] for row in vars_[p]], dtype=float)
             mp = [[row[e] for e in permd] for row in means[p]]
             vp = [[row[e] for e in permd] for row in vars_[p]]
-            sc = _checked(ctx, np, gd, lambda: H([Mp], [Vp], D, _FixedRng(order), max_combos=10 ** 6).tolist(),
+            sc = _checked(ctx, np, gd, lambda: H([Mp], [Vp], D, _FixedRng(order), max_combos=_budget(cfg, nt)).tolist(),
                           [mp], [vp], dist, order, nt)
             ctx.prove(ctx.eq(sc[0], together[p]), "score unchanged by the order of experiments within the plate")
     if len(sizes) >= 2:
-        rev = _checked(ctx, np, gd, lambda: H(M[::-1], V[::-1], D, _FixedRng(order), max_combos=10 ** 6).tolist(),
+        rev = _checked(ctx, np, gd, lambda: H(M[::-1], V[::-1], D, _FixedRng(order), max_combos=_budget(cfg, nt)).tolist(),
                        means[::-1], vars_[::-1], dist, order, nt)
         for p in range(len(sizes)):
             ctx.prove(ctx.eq(rev[len(sizes) - 1 - p], together[p]), "score unchanged by the order of plates")
     if order != "id":
-        base = _checked(ctx, np, gd, lambda: H(M, V, D, _FixedRng("id"), max_combos=10 ** 6).tolist(),
+        base = _checked(ctx, np, gd, lambda: H(M, V, D, _FixedRng("id"), max_combos=_budget(cfg, nt)).tolist(),
                         means, vars_, dist, "id", nt)
         for p in range(len(sizes)):
             ctx.prove(ctx.eq(base[p], together[p]), "score unchanged by the order in which triples are drawn")
@@ -230,10 +243,10 @@ def h_homo(ctx, cfg):
     M = [np.array(m, dtype=float) for m in means]
     vv_all = [[[hv[p][t]] * sz for t in range(nt)] for p, sz in enumerate(sizes)]
     homo = _checked(ctx, np, gd, lambda: gd.dbal_fast_gaussian_scoring_homoscedastic(
-        M, np.array(hv, dtype=float), D, _FixedRng("id"), max_combos=10 ** 6).tolist(), means, vv_all, dist, "id", nt)
+        M, np.array(hv, dtype=float), D, _FixedRng("id"), max_combos=_budget(cfg, nt)).tolist(), means, vv_all, dist, "id", nt)
     V = [np.array(v, dtype=float) for v in vv_all]
     het = _checked(ctx, np, gd, lambda: gd.dbal_fast_gaussian_scoring_heteroscedastic(
-        M, V, D, _FixedRng("id"), max_combos=10 ** 6).tolist(), means, vv_all, dist, "id", nt)
+        M, V, D, _FixedRng("id"), max_combos=_budget(cfg, nt)).tolist(), means, vv_all, dist, "id", nt)
     ctx.observe("homo", homo)
     triples = _triple_order(gd, nt, "id")
     for p, sz in enumerate(sizes):
@@ -287,7 +300,7 @@ def h_scorer(ctx, cfg):
     which = int(ctx.int("which", 0, 1))
     keys = list(plates) if which == 0 else list(plates)[::-1]
     ordered = {k: plates[k] for k in keys}
-    scorer = gd.GaussianDBALScorer(max_chunk=max_chunk, max_triples=10 ** 6)
+    scorer = gd.GaussianDBALScorer(max_chunk=max_chunk, max_triples=_budget(cfg, nt))
     by_key = {pid: p for p, pid in enumerate(ids)}
     res = _checked(ctx, np, gd, lambda: scorer.score(plates=ordered, distance_matrix=dm, samples=holder,
                                                        rng=_FixedRng("id"), progress_bar=False),
@@ -310,14 +323,14 @@ def h_relabel(ctx, cfg):
     M = [np.array(m, dtype=float) for m in means]
     V = [np.array(v, dtype=float) for v in vars_]
     H = gd.dbal_fast_gaussian_scoring_heteroscedastic
-    base = _checked(ctx, np, gd, lambda: H(M, V, D, _FixedRng("id"), max_combos=10 ** 6).tolist(), means, vars_, dist, "id", nt)
+    base = _checked(ctx, np, gd, lambda: H(M, V, D, _FixedRng("id"), max_combos=_budget(cfg, nt)).tolist(), means, vars_, dist, "id", nt)
     M2 = [np.array([m[pi[t]] for t in range(nt)], dtype=float) for m in means]
     V2 = [np.array([v[pi[t]] for t in range(nt)], dtype=float) for v in vars_]
     D2 = np.array([[dist[pi[i]][pi[j]] for j in range(nt)] for i in range(nt)], dtype=float)
     means2 = [[m[pi[t]] for t in range(nt)] for m in means]
     vars2 = [[v[pi[t]] for t in range(nt)] for v in vars_]
     dist2 = [[dist[pi[i]][pi[j]] for j in range(nt)] for i in range(nt)]
-    rel = _checked(ctx, np, gd, lambda: H(M2, V2, D2, _FixedRng("id"), max_combos=10 ** 6).tolist(), means2, vars2, dist2, "id", nt)
+    rel = _checked(ctx, np, gd, lambda: H(M2, V2, D2, _FixedRng("id"), max_combos=_budget(cfg, nt)).tolist(), means2, vars2, dist2, "id", nt)
     ctx.observe("rel", rel)
     for p in range(len(sizes)):
         ctx.prove(ctx.eq(rel[p], base[p]), "score unchanged by a consistent relabelling of the posterior samples")
@@ -339,7 +352,7 @@ def h_finite(ctx, cfg):
     M = [np.array(m, dtype=float) for m in means]
     V = [np.array(v, dtype=float) for v in vars_]
     with np.errstate(divide="ignore"):
-        sc = gd.dbal_fast_gaussian_scoring_heteroscedastic(M, V, D, _FixedRng("id"), max_combos=10 ** 6).tolist()
+        sc = gd.dbal_fast_gaussian_scoring_heteroscedastic(M, V, D, _FixedRng("id"), max_combos=_budget(cfg, nt)).tolist()
     for p in range(len(sizes)):
         isneginf = isinstance(sc[p], float) and sc[p] == float("-inf")
         isnan = isinstance(sc[p], float) and sc[p] != sc[p]
@@ -380,11 +393,11 @@ def h_extreme(ctx, cfg):
     D = np.array(dist, dtype=float)
     M = [np.array(m, dtype=float) for m in means]
     V = [np.array(v, dtype=float) for v in vars_]
-    together = gd.dbal_fast_gaussian_scoring_heteroscedastic(M, V, D, _FixedRng("id"), max_combos=10 ** 6).tolist()
+    together = gd.dbal_fast_gaussian_scoring_heteroscedastic(M, V, D, _FixedRng("id"), max_combos=_budget(cfg, nt)).tolist()
     ctx.observe("together", together)
     for p in range(len(sizes)):
         want = direct(means[p], vars_[p])
-        alone = gd.dbal_fast_gaussian_scoring_heteroscedastic([M[p]], [V[p]], D, _FixedRng("id"), max_combos=10 ** 6).tolist()[0]
+        alone = gd.dbal_fast_gaussian_scoring_heteroscedastic([M[p]], [V[p]], D, _FixedRng("id"), max_combos=_budget(cfg, nt)).tolist()[0]
         ctx.prove(not math.isinf(together[p]) and not math.isnan(together[p]), "score is finite whenever some triple has positive distance (extreme scales)",
                   key="extreme scales: score not finite")
         ctx.prove(abs(together[p] - want) <= 1e-6 * max(1.0, abs(want)), "score equals the direct estimator to floating-point accuracy (extreme scales)",
